@@ -305,13 +305,40 @@ func isAllOnes(t *Term) bool {
 // liftIte distributes a binary operation over an ite whose branches are both
 // constants when the other operand is constant: keeps merged enums/flags small.
 func liftIte(f func(a, b *Term) *Term, a, b *Term) *Term {
-	if a.Op == OIte && b.IsConst() && a.A[1].IsConst() && a.A[2].IsConst() {
+	if a.Op == OIte && b.IsConst() && constTree(a, 8) > 0 {
 		return Ite(a.A[0], f(a.A[1], b), f(a.A[2], b))
 	}
-	if b.Op == OIte && a.IsConst() && b.A[1].IsConst() && b.A[2].IsConst() {
+	if b.Op == OIte && a.IsConst() && constTree(b, 8) > 0 {
 		return Ite(b.A[0], f(a, b.A[1]), f(a, b.A[2]))
 	}
+	// two const-trees (e.g. the difference of two merged scales)
+	if a.Op == OIte && b.Op == OIte {
+		if la, lb := constTree(a, 8), constTree(b, 8); la > 0 && lb > 0 && la*lb <= 36 {
+			return Ite(a.A[0], f(a.A[1], b), f(a.A[2], b))
+		}
+	}
 	return nil
+}
+
+// constTree returns the number of leaves if t is a tree of ites whose leaves are all
+// constants (at most max leaves), else 0. Such terms arise when a small concrete
+// field (a quantity's scale, an enum) is merged over several paths.
+func constTree(t *Term, max int) int {
+	if t.IsConst() {
+		return 1
+	}
+	if t.Op != OIte || max < 2 {
+		return 0
+	}
+	l := constTree(t.A[1], max-1)
+	if l == 0 {
+		return 0
+	}
+	r := constTree(t.A[2], max-l)
+	if r == 0 {
+		return 0
+	}
+	return l + r
 }
 
 func Add(a, b *Term) *Term {
@@ -327,6 +354,9 @@ func Add(a, b *Term) *Term {
 	}
 	if a.IsConst() { // constants to the right
 		a, b = b, a
+	}
+	if r := liftIte(Add, a, b); r != nil {
+		return r
 	}
 	// (x + c1) + c2
 	if b.IsConst() && a.Op == OAdd && a.A[1].IsConst() {
@@ -366,6 +396,9 @@ func Sub(a, b *Term) *Term {
 	if a == b {
 		return BV(0, a.W).widen(a.W)
 	}
+	if r := liftIte(Sub, a, b); r != nil {
+		return r
+	}
 	if b.IsConst() {
 		return Add(a, Neg(b))
 	}
@@ -402,6 +435,9 @@ func Neg(a *Term) *Term {
 	}
 	if a.Op == ONeg {
 		return a.A[0]
+	}
+	if a.Op == OIte && constTree(a, 8) > 0 {
+		return Ite(a.A[0], Neg(a.A[1]), Neg(a.A[2]))
 	}
 	return intern(ONeg, a.W, 0, 0, 0, "", a)
 }
@@ -557,6 +593,11 @@ func Eq(a, b *Term) *Term {
 			return Ite(a.A[0], Eq(t, b), Eq(e, b))
 		}
 	}
+	if a.Op == OIte && b.Op == OIte && a.W > 0 {
+		if la, lb := constTree(a, 8), constTree(b, 8); la > 0 && lb > 0 && la*lb <= 36 {
+			return Ite(a.A[0], Eq(a.A[1], b), Eq(a.A[2], b))
+		}
+	}
 	// (x + c1) == c2  ->  x == c2-c1
 	if b.IsConst() && a.Op == OAdd && a.A[1].IsConst() {
 		return Eq(a.A[0], Sub(b, a.A[1]))
@@ -575,11 +616,16 @@ func cmpLike(op Op, a, b *Term) *Term {
 	if a == b {
 		return BoolC(op == OSle || op == OUle)
 	}
-	if b.IsConst() && a.Op == OIte && a.A[1].IsConst() && a.A[2].IsConst() {
+	if b.IsConst() && a.Op == OIte && constTree(a, 8) > 0 {
 		return Ite(a.A[0], cmpLike(op, a.A[1], b), cmpLike(op, a.A[2], b))
 	}
-	if a.IsConst() && b.Op == OIte && b.A[1].IsConst() && b.A[2].IsConst() {
+	if a.IsConst() && b.Op == OIte && constTree(b, 8) > 0 {
 		return Ite(b.A[0], cmpLike(op, a, b.A[1]), cmpLike(op, a, b.A[2]))
+	}
+	if a.Op == OIte && b.Op == OIte {
+		if la, lb := constTree(a, 8), constTree(b, 8); la > 0 && lb > 0 && la*lb <= 36 {
+			return Ite(a.A[0], cmpLike(op, a.A[1], b), cmpLike(op, a.A[2], b))
+		}
 	}
 	if op == OUlt && isZero(b) {
 		return False
@@ -696,6 +742,15 @@ func Ite(c, a, b *Term) *Term {
 			return And(c, a)
 		}
 	}
+	// a tree of ites over few distinct constants (a merged scale or enum) is kept in
+	// the normal form ite(c1, k1, ite(c2, k2, ... kn)) with the constants ascending
+	if a.W > 0 && (a.Op == OIte || b.Op == OIte) {
+		if la, lb := constTree(a, 64), constTree(b, 64); la > 0 && lb > 0 && la+lb > 2 {
+			if r := normConstTree(c, a, b); r != nil {
+				return r
+			}
+		}
+	}
 	// ite(c, x, ite(c, y, z)) = ite(c, x, z); ite(c, ite(c,x,y), z) = ite(c,x,z)
 	if b.Op == OIte && b.A[0] == c {
 		return Ite(c, a, b.A[2])
@@ -724,7 +779,7 @@ func Extract(a *Term, hi, lo int) *Term {
 	if (a.Op == OZext || a.Op == OSext) && hi < a.A[0].W {
 		return Extract(a.A[0], hi, lo)
 	}
-	if a.Op == OIte && a.A[1].IsConst() && a.A[2].IsConst() {
+	if a.Op == OIte && constTree(a, 8) > 0 {
 		return Ite(a.A[0], Extract(a.A[1], hi, lo), Extract(a.A[2], hi, lo))
 	}
 	return intern(OExtract, w, lo, 0, 0, "", a)
@@ -740,7 +795,7 @@ func Zext(a *Term, w int) *Term {
 	if c := constFold(OZext, w, 0, a); c != nil {
 		return c
 	}
-	if a.Op == OIte && a.A[1].IsConst() && a.A[2].IsConst() {
+	if a.Op == OIte && constTree(a, 8) > 0 {
 		return Ite(a.A[0], Zext(a.A[1], w), Zext(a.A[2], w))
 	}
 	return intern(OZext, w, 0, 0, 0, "", a)
@@ -755,7 +810,7 @@ func Sext(a *Term, w int) *Term {
 	if c := constFold(OSext, w, 0, a); c != nil {
 		return c
 	}
-	if a.Op == OIte && a.A[1].IsConst() && a.A[2].IsConst() {
+	if a.Op == OIte && constTree(a, 8) > 0 {
 		return Ite(a.A[0], Sext(a.A[1], w), Sext(a.A[2], w))
 	}
 	return intern(OSext, w, 0, 0, 0, "", a)
@@ -839,6 +894,15 @@ func FFromU(a *Term) *Term {
 func FToS(a *Term, w int) *Term {
 	if c := constFold(OFToS, w, 0, a); c != nil {
 		return c
+	}
+	// finite * (+-0) = +-0, which converts to 0
+	if a.Op == OFMul {
+		for i := 0; i < 2; i++ {
+			x, z := a.A[i], a.A[1-i]
+			if (x.Op == OFFromS || x.Op == OFFromU) && z.IsConst() && z.Float() == 0 {
+				return BV128(0, 0, w)
+			}
+		}
 	}
 	return intern(OFToS, w, 0, 0, 0, "", a)
 }
@@ -1262,4 +1326,52 @@ func Vars(t *Term, set map[*Term]bool, seen map[uint64]bool) {
 	for i := 0; i < t.N; i++ {
 		Vars(t.A[i], set, seen)
 	}
+}
+
+func collectLeaves(guard *Term, t *Term, out map[*Term]*Term) {
+	if t.IsConst() {
+		if g, ok := out[t]; ok {
+			out[t] = Or(g, guard)
+		} else {
+			out[t] = guard
+		}
+		return
+	}
+	collectLeaves(And(guard, t.A[0]), t.A[1], out)
+	collectLeaves(And(guard, Not(t.A[0])), t.A[2], out)
+}
+
+// normConstTree rebuilds ite(c, a, b), a and b const-trees, grouped by leaf value.
+// It returns nil when that would not reduce the number of leaves.
+func normConstTree(c, a, b *Term) *Term {
+	leaves := map[*Term]*Term{}
+	collectLeaves(c, a, leaves)
+	collectLeaves(Not(c), b, leaves)
+	total := constTree(a, 64) + constTree(b, 64)
+	if len(leaves) >= total {
+		return nil
+	}
+	ks := make([]*Term, 0, len(leaves))
+	for k := range leaves {
+		ks = append(ks, k)
+	}
+	// ascending by (Hi, Lo) for determinism
+	for i := 1; i < len(ks); i++ {
+		for j := i; j > 0 && (ks[j].Hi < ks[j-1].Hi || (ks[j].Hi == ks[j-1].Hi && ks[j].Lo < ks[j-1].Lo)); j-- {
+			ks[j], ks[j-1] = ks[j-1], ks[j]
+		}
+	}
+	r := ks[len(ks)-1]
+	for i := len(ks) - 2; i >= 0; i-- {
+		g := leaves[ks[i]]
+		if g.IsTrue() {
+			r = ks[i]
+			continue
+		}
+		if g.IsFalse() {
+			continue
+		}
+		r = intern(OIte, r.W, 0, 0, 0, "", g, ks[i], r)
+	}
+	return r
 }
